@@ -356,6 +356,15 @@ mutual
     | e :: es => (classifyExpr env cur fx e).join (classifyExprs env cur fx es)
 end
 
+/-- `Resolver::condition_class` (fix D-03f): evaluating the condition of an `if` / `jasi` and then the
+run-time test that its value is a boolean or null; only a type that follows from the condition's own
+literals rules the `Type mismatch` out. -/
+def condClass (env : Env) (cur : Scope) (fx : Facts) (c : Expr) : ExprClass :=
+  let k := classifyExpr env cur fx c
+  match literalType c with
+  | some .bool | some .null => k
+  | _ => k.join .pureMayTrap
+
 /-- `expr_root_local`. -/
 def exprRootLocal (env : Env) (cur : Scope) : Expr → Option Nat
   | .var n _ _ => (lookupVar env cur n).map (·.id)
@@ -646,7 +655,7 @@ mutual
         let f1 := pushStmt f0 env.owner env.scope
         let rc := checkExpr env cur.vars sid c f1
         let d := errIf (!condOk (inferExpr env cur.vars c)) (RDiag.at .tyCond c.span)
-        let f2 := joinClass rc.facts sid (classifyExpr env cur.vars rc.facts c)
+        let f2 := joinClass rc.facts sid (condClass env cur.vars rc.facts c)
         let envB := { env with vars := cur.vars :: env.vars }
         let rt := checkBlock envB (some env.scope) t f2
         let re := checkOptBlock envB (some env.scope) e rt.facts
@@ -656,7 +665,7 @@ mutual
         let f1 := pushStmt f0 env.owner env.scope
         let rc := checkExpr env cur.vars sid c f1
         let d := errIf (!condOk (inferExpr env cur.vars c)) (RDiag.at .tyCond c.span)
-        let f2 := joinClass rc.facts sid (classifyExpr env cur.vars rc.facts c)
+        let f2 := joinClass rc.facts sid (condClass env cur.vars rc.facts c)
         let envB := { env with vars := cur.vars :: env.vars, inLoop := env.inLoop + 1 }
         let rb := checkBlock envB (some env.scope) b f2
         ⟨.loop rc.val rb.val (some sid) sp, rc.ds ++ d ++ rb.ds, rb.facts, cur⟩
